@@ -79,7 +79,12 @@ func runC17(ctx *Ctx) {
 	ctx.CheckRapid("addstd", per(500000, 8000000), func(rt *rapid.T) *Case {
 		ts := genTSSeconds().Draw(rt, "ts")
 		tn := genNanos().Draw(rt, "tn")
-		s := rapid.OneOf(rapid.Int64(), rapid.Int64Range(-3*e9, 3*e9), rapid.SampledFrom([]int64{0, 1, -1, math.MaxInt64, math.MinInt64, math.MinInt64 + 1, e9, -e9, int64(-tn), int64(e9 - tn), int64(-tn) - 1})).Draw(rt, "std")
+		s := rapid.OneOf(rapid.Int64(), rapid.Int64Range(-3*e9, 3*e9), rapid.Custom(func(t *rapid.T) int64 {
+			// a whole number of seconds plus/minus a few nanoseconds, over the whole time.Duration range
+			secs := rapid.OneOf(rapid.Int64Range(-9223372035, 9223372035), rapid.Int64Range(-40000000, 40000000), rapid.SampledFrom([]int64{1 << 24, 1<<24 + 1, 31536000, 3153600000, 9223372035, -31536000})).Draw(t, "secs")
+			off := rapid.OneOf(rapid.Int64Range(-1200, 1200), rapid.SampledFrom([]int64{-1, 1, 0, -2, 999999999, -999999999})).Draw(t, "off")
+			return secs*e9 + off
+		}), rapid.SampledFrom([]int64{0, 1, -1, math.MaxInt64, math.MinInt64, math.MinInt64 + 1, e9, -e9, int64(-tn), int64(e9 - tn), int64(-tn) - 1})).Draw(rt, "std")
 		return &Case{Sub: "addstd", Args: map[string]string{"ts": i64(ts), "tn": i64(int64(tn)), "std": i64(s)}}
 	}, func(c *Case) error { return checkC17(ctx, c) })
 
